@@ -910,6 +910,15 @@ func (e *escaper) escapeTree(c context, node parse.Node, name string, line int) 
 			err:   errorf(ErrNoSuchTemplate, node, line, "template name %q is reserved for a context-specific copy of %q", dname, name),
 		}, dname
 	}
+	if e.derived[name] != nil || e.ns.derivedNames[name] {
+		// The counterpart: template text calls a context-specific copy by its name. The
+		// copy was analysed for the context in its name, not for the one here. (The
+		// engine's own calls of copies sit in rewritten trees, which are not analysed again.)
+		return context{
+			state: stateError,
+			err:   errorf(ErrNoSuchTemplate, node, line, "template name %q is reserved for a context-specific copy", name),
+		}, dname
+	}
 	e.called[dname] = true
 	if out, ok := e.output[dname]; ok {
 		// Already escaped.
